@@ -33,13 +33,16 @@ RULE = ('scenarios from one PRNG state over the configuration lattice: 2..5 chan
         'held while analyzer.cache is queried again; sessions -- ONE SparseCoherenceAnalyzer (or a copy.copy of it) through 8 patterns of set_input calls with a series lacking a channel of ij, a 1-d series, a good series '
         'of another rate, the same object after an in-place change, a row-strided view, reset(), with / without a caller-fixed Fs: frequencies / spectrum / delay / coherency = the dense computation on the input '
         'ACTUALLY HELD, vars() compared across a refused call; cache_fft refused (lb > ub, window length, unknown this_method, non-integer NFFT) and cache_to_* for a pair the cache lacks, then the proper call with the '
-        'same method dict / cache; SeedCoherenceAnalyzer whose seed samples are a row-strided / reversed VIEW of the target samples, the result held across an in-place change of the seed.')
+        'same method dict / cache; SeedCoherenceAnalyzer whose seed samples are a row-strided / reversed VIEW of the target samples, the result held across an in-place change of the seed. ' 
+        ' WAVE 6 (deterministic in every run): a CHANNEL-LABEL block -- 1..16, 34 and 40 channels, each with its own dominant frequency / scale / delay, pair lists that are sparse, unsorted, reversed, repeated, with gaps, '
+        'largest index first, and channel sets CPython iterates out of order ({1,8} -> 8,1; {33,1,2,3,4}); judged: every value under every key of cache[\'FFT_slices\'], cache_to_psd, cache_to_phase is the one of ITS channel, '
+        'SparseCoherenceAnalyzer.spectrum / phases / delay; the block also enumerates the corners NFFT parity x {default, 0, NFFT-1, NFFT//2} overlap x {shorter, equal, one more, many times} NFFT x band x both flags.')
 ASSUMPTIONS = ['real-valued input, 0 <= n_overlap < NFFT, Fs > 0, real window with non-zero energy, 0 <= lb <= ub <= Fs/2',
                'band edges are generated off the frequency grid (or 0 / None), so that an ulp of difference between two evaluations of the same grid cannot move a bin',
                'scale_by_freq=False has no dense counterpart in get_spectra: the cached PSD is then compared with Fs x the dense density',
                'cache_to_relative_phase averages per-window angles; it is compared with the dense angle only for a single window (the property clause), '
                'with the model otherwise; DC / Nyquist bins (real spectra, angle 0 or pi by rounding) are left out of multi-window phase comparisons']
-TRUSTED_EXTRA = c08.TRUSTED_EXTRA[:3] + ['harness/translate_c09.py gen_out: how each cache_to_* function binds the object it returns (np.zeros / {} in the function itself, or an expression that involves `cache`), whether it writes into '
+TRUSTED_EXTRA = c08.TRUSTED_EXTRA[:3] + ['harness/translate_c09.py gen_keys: per cache function the ordering its dict KEYS come from and the ordering its VALUES are computed along -> Generated/CacheKeys.lean; the iteration order of the channel set is DATA handed to the model by the harness (list(set) built the way the code builds it)', 'harness/translate_c09.py gen_out: how each cache_to_* function binds the object it returns (np.zeros / {} in the function itself, or an expression that involves `cache`), whether it writes into '
                                          '`cache` or hands it to a helper, whether the entries it stores are new arrays -> Generated/CacheOut.lean; the heap model of Nitime/Model/C09Out.lean (an allocated array is nobody else\'s) is monitored by the `outhist` correspondence',
                                          'Generated/SetInput.lean (translate_c05.py gen_setinput) + Nitime/Model/CohSession.lean for SparseCoherenceAnalyzer.set_input: monitored by the `sess` correspondence (rate used, series held)',
                                          'harness/translate_c09.py: which expression cache_fft assigns to window_vals in the sequence / function branch -> Generated/CacheWin.lean (echoed in the evidence)',
@@ -233,6 +236,103 @@ def make_scenarios(rng, tier, seed):
                 set_wform(sc, wf, rng)
             sc['ijform'] = [None, 'tuple', 'lists', 'ndarray'][fam % 4]
             out.append(sc)
+    out += label_scenarios(nr, big)
+    return out
+
+
+
+# ------------------------------------------------------------------ channel labels (wave 6: "labels attached to the wrong values") + quantifier corners
+# DETERMINISTIC in every run (only the noise comes from the PRNG): channel counts 1..16 (+ 34, 40), pair lists that are sparse, unsorted,
+# reversed, repeated, with gaps, with the largest index first, and -- from 9 channels on -- sets of channel indices that CPython does NOT
+# iterate in increasing order ({1, 8} iterates as 8, 1; {33, 1, 2, 3, 4} as 33, 1, 2, 3, 4); every channel carries its OWN spectrum (its own
+# dominant frequency, scale and delay of the common source), so a value under the wrong key / in the wrong (i, j) role is far from the dense value.
+# The configuration corners of the quantifier are enumerated along the block: NFFT parity x {default, 0, NFFT-1, NFFT//2} overlap x
+# {shorter than, equal to, one more than, many times} NFFT x {full band, band-limited} x both flags.
+LABEL_PATTERNS = ['largest-first', 'gap-low-high', 'gap-high-low', 'high-self-then-low', 'reversed-repeated', 'descending', 'hash-wrap']
+
+
+def label_pairs(nch, pat):
+    h = nch - 1
+    if nch == 1:
+        return [(0, 0)]
+    if pat == 'largest-first':
+        return [(h, 0)]
+    if pat == 'gap-low-high':
+        return [(1 % nch, h)]
+    if pat == 'gap-high-low':
+        return [(h, 1 % nch)]
+    if pat == 'high-self-then-low':
+        return [(h, h // 3), (h, h)]
+    if pat == 'reversed-repeated':
+        return [(h // 2, h), (h, h // 2), (h // 2, h)]
+    if pat == 'descending':
+        return [(h, h - 1), (max(h - 2, 0), max(h - 3, 0)), (max(h - 3, 0), h)]
+    if pat == 'hash-wrap':
+        # a small set whose largest member wraps around CPython's 8-slot table in front of a smaller one
+        for a in (h, h - 1):
+            if a >= 8 and a % 8 < 7:
+                return [(a % 8 + 1, a), (a, a)]
+        if h >= 32:
+            return [(h, 1), (2, 3), (4, h)]
+        return [(h, 0), (0, h)]
+    raise KeyError(pat)
+
+
+def set_iteration(ij):
+    """the order in which CPython iterates the set the cache functions build from ij (data for the model's bookkeeping)"""
+    s_ = set()
+    for i, j in ij:
+        s_.add(int(i))
+        s_.add(int(j))
+    return [int(c) for c in s_]
+
+
+def label_data(nr, nch, n):
+    t = np.arange(n)
+    src = nr.randn(n + 64)
+    X = []
+    for c in range(nch):
+        f_c = (c + 1.0) / (2.0 * (nch + 1.0))                      # cycles / sample, strictly inside (0, 1/2): one per channel
+        x = np.sin(2 * np.pi * f_c * t + 0.7 * c) + 0.6 * src[(3 * c) % 61:(3 * c) % 61 + n] + 0.3 * nr.randn(n)
+        X.append((1.0 + 0.5 * c) * x)
+    return np.array(X)
+
+
+def label_scenarios(nr, big):
+    out = []
+    k = 0
+    counts = list(range(1, 17)) + [34, 40]
+    for nch in counts:
+        npat = 1 if nch == 1 else 2 if nch < 9 else 3
+        pats = [LABEL_PATTERNS[(nch + 3 * q) % 7] for q in range(npat)]
+        if nch >= 9 and 'hash-wrap' not in pats:
+            pats[-1] = 'hash-wrap'
+        if nch > 16:
+            pats = ['hash-wrap']
+        for pat in pats:
+            k += 1
+            NFFT = [8, 15, 16, 7][k % 4]
+            n = [4 * NFFT + 3, NFFT, NFFT - 2, 6 * NFFT, NFFT + 1][k % 5]
+            if nch > 16:
+                NFFT, n = 8, 32
+            nov = [None, 0, NFFT - 1, NFFT // 2][(k // 2) % 4]
+            Fs = [1.0, 250.0, 2 * math.pi, 10.0][(k // 3) % 4]
+            nf = NFFT // 2 + 1
+            if k % 3 == 0:
+                lb, ub = 0.0, None
+            else:
+                i = (k // 3) % (nf - 1)
+                j = i + 1 + (k // 5) % (nf - i)
+                lb, ub = max(0.0, (i - 0.5) * Fs / NFFT), (j - 0.5) * Fs / NFFT
+            ij = label_pairs(nch, pat)
+            sc = {'data': label_data(nr, nch, n).tolist(), 'NFFT': NFFT, 'nov': nov, 'win': 'hann' if k % 2 else 'hamming',
+                  'winvals': None if k % 2 else win_vals('hamming', NFFT, nr), 'Fs': Fs, 'lb': lb, 'ub': ub, 'ij': ij,
+                  'sbf': bool((k // 2) % 2), 'psm': bool(k % 2), 'nseed': 0 if nch < 2 else [0, 1, 2, 3][k % 4] if nch > 3 else [0, 1][k % 2],
+                  'light': True, 'labels': pat, 'setiter': set_iteration(ij)}
+            if nch == 1:
+                sc['noseed'] = True
+            sc['ijform'] = [None, 'tuple', 'lists', 'ndarray'][(k // 4) % 4]
+            out.append(sc)
     return out
 
 
@@ -369,7 +469,20 @@ def impl_results(sc):
             import nitime.utils as U
             l_, u_ = U.get_bounds(freqs, sc['lb'], sc['ub'])
             freqs = freqs[l_:u_]
-        return {'freqs': np.array(freqs),
+        lab = {}
+        if sc.get('labels'):
+            # which ROW of the recording lies under each key of the cache / of the returned dicts: the cached windows of channel d alone
+            # (a one-element channel set has one iteration order) are the reference for FFT_slices[c] and Phase[c]
+            lab['keys'] = {'fft': sorted(int(c) for c in cache['FFT_slices']), 'psd': sorted(int(c) for c in psd), 'phase': sorted(int(c) for c in ph)}
+            ref_s, ref_p = [], []
+            for d in range(Xv.shape[0]):
+                _, c1 = A.cache_fft(Xv, [(d, d)], method=method_of(sc), **k2)
+                ref_s.append(np.array(c1['FFT_slices'][d]))
+                ref_p.append(np.asarray(A.cache_to_phase(c1, [(d, d)])[d]).reshape(-1))
+            lab['fft'] = [attribute(c, [np.abs(np.asarray(cache['FFT_slices'][c]) - r_).max() for r_ in ref_s]) for c in chans]
+            lab['phase'] = [attribute(c, [max(circ(v) for v in (np.asarray(ph[c]).reshape(-1) - r_)) for r_ in ref_p], 1e-9) for c in chans]
+            lab['psd_rows'] = [np.real(np.asarray(psd[c])).reshape(-1) for c in chans]
+        return {'freqs': np.array(freqs), 'lab': lab,
                 'coherency': np.array([coh[i, j] for i, j in ij]).reshape(len(ij), -1),
                 'psd': np.array([np.real(np.asarray(psd[c])).reshape(-1) for c in chans]),
                 'relphase': np.real(np.array([rel[i, j] for i, j in ij])).reshape(len(ij), -1),
@@ -382,10 +495,18 @@ def impl_results(sc):
         T = series_of(sc, Xv)
         S = SparseCoherenceAnalyzer(T, ij_arg(sc), method=analyzer_method(sc), **kw)
         coh = np.asarray(S.coherency)
-        return {'coherency': np.array([coh[i, j] for i, j in ij]).reshape(len(ij), -1),
-                'coherence': np.array([np.asarray(S.coherence)[i, j] for i, j in ij]).reshape(len(ij), -1),
-                'relphase': np.array([np.asarray(S.relative_phases)[i, j] for i, j in ij]).reshape(len(ij), -1),
-                'frequencies': np.asarray(S.frequencies)}
+        out = {'coherency': np.array([coh[i, j] for i, j in ij]).reshape(len(ij), -1),
+               'coherence': np.array([np.asarray(S.coherence)[i, j] for i, j in ij]).reshape(len(ij), -1),
+               'relphase': np.array([np.asarray(S.relative_phases)[i, j] for i, j in ij]).reshape(len(ij), -1),
+               'frequencies': np.asarray(S.frequencies)}
+        if sc.get('labels'):
+            chans = sorted({c for p in ij for c in p})
+            sp, ph = S.spectrum, S.phases
+            out['spectrum'] = np.array([np.real(np.asarray(sp[c])).reshape(-1) for c in chans])
+            out['phases'] = np.array([np.asarray(ph[c]).reshape(-1) for c in chans])
+            dl = np.asarray(S.delay)
+            out['delay'] = np.array([dl[i, j] for i, j in ij]).reshape(len(ij), -1)
+        return out
     R['sparse'] = run(sparse)
 
     def seed():
@@ -394,10 +515,15 @@ def impl_results(sc):
         tg = Xv[max(ns, 1):]
         S = SeedCoherenceAnalyzer(series_of(sc, sd), series_of(sc, tg), method=analyzer_method(sc), **kw)
         return {'coherency': np.asarray(S.coherency), 'frequencies': np.asarray(S.frequencies)}
-    R['seed'] = run(seed)
+    R['seed'] = 'skipped' if sc.get('noseed') else run(seed)
     # dense reference (the oracle's side)
     R['dense'] = run(lambda: A.get_spectra(X, method_of(sc, dense=True)))
     R['dense_coh'] = run(lambda: A.coherency(X, method_of(sc, dense=True)))
+    if X.shape[0] == 1:
+        # one channel: the dense functions squeeze the (1, 1, f) result
+        for k_ in ('dense', 'dense_coh'):
+            if not isinstance(R[k_], str) and np.asarray(R[k_][1]).ndim == 1:
+                R[k_] = (R[k_][0], np.asarray(R[k_][1]).reshape(1, 1, -1))
     return R
 
 
@@ -416,6 +542,33 @@ def win_tok(sc, dense=False):
 def head(sc, dflt):
     nov = dflt if sc['nov'] is None else str(sc['nov'])
     return '%d %s %s %s' % (sc['NFFT'], nov, f2x(sc['Fs']), win_tok(sc, dense=(dflt == 'dfunc')))
+
+
+def attribute(own, dist, tol=0.0):
+    """the channel whose reference is nearest; the key's own channel when it is (as good as) nearest -- a band of one real bin cannot tell channels apart"""
+    dist = [float(d) if np.isfinite(d) else np.inf for d in dist]
+    return int(own) if own < len(dist) and dist[own] <= min(dist) + tol * max(1.0, min(dist)) else int(np.argmin(dist))
+
+
+def label_attribution(sc, R):
+    """for every requested channel c (sorted): the row of the recording whose cached windows / dense PSD / phase the value under key c is"""
+    c = R['cache']
+    lab = c.get('lab') or {}
+    out = {'fft': lab.get('fft'), 'phase': lab.get('phase'), 'psd': None}
+    d = R['dense']
+    if not isinstance(d, str) and lab.get('psd_rows') is not None:
+        f, fxy = d
+        li = int(np.searchsorted(f, sc['lb'], 'left'))
+        ui = len(f) if sc['ub'] is None else int(np.searchsorted(f, sc['ub'], 'right'))
+        nch = len(sc['data'])
+        ref = [np.real(fxy[a, a, li:ui]) * (1.0 if sc['sbf'] else sc['Fs']) for a in range(nch)]
+        att = []
+        chans_ = sorted({x for p in sc['ij'] for x in p})
+        for row in lab['psd_rows']:
+            dist = [np.abs(row - r_).max() / max(np.abs(r_).max(), 1e-300) if row.shape == r_.shape else np.inf for r_ in ref]
+            att.append(attribute(chans_[len(att)], dist, 1e-9))
+        out['psd'] = att
+    return out
 
 
 def cases_of(sc, R, si):
@@ -459,8 +612,22 @@ def cases_of(sc, R, si):
     sd = R['seed']
     ns = sc['nseed']
     line = 'C09 seed %s %d %d %s %s %d %s' % (head(sc, 'dcache'), sc['sbf'], sc['psm'], f2x(sc['lb']), ubt, ns, ' '.join(flist(x) for x in X))
-    out.append(Case(line, sd if isinstance(sd, str) else 'ok ' + clist(np.asarray(sd['coherency']).reshape(-1)), 'seed/coherency',
-                    cmp=either(cmp_last_), meta=meta('seed')))
+    if not sc.get('noseed'):
+        out.append(Case(line, sd if isinstance(sd, str) else 'ok ' + clist(np.asarray(sd['coherency']).reshape(-1)), 'seed/coherency',
+                        cmp=either(cmp_last_), meta=meta('seed')))
+    # the channel bookkeeping (model: Model/C09Keys.lean with the generated key / fill orderings): which ROW of the recording lies under
+    # each key of cache['FFT_slices'], of cache_to_psd's and of cache_to_phase's dict; the set's iteration order is data
+    if sc.get('labels') and not isinstance(c, str):
+        att = label_attribution(sc, R)
+        chans = sorted({x for p in sc['ij'] for x in p})
+        it = ','.join(str(v) for v in sc['setiter'])
+        for fn, key in (('cache_fft', 'fft'), ('cache_to_psd', 'psd'), ('cache_to_phase', 'phase')):
+            if att.get(key) is None:
+                continue
+            impl = 'ok ' + ' '.join('%d=%d' % (c_, d_) for c_, d_ in zip(chans, att[key]))
+            if c['lab']['keys'][key] != chans:
+                impl = 'keys ' + ','.join(str(v) for v in c['lab']['keys'][key])
+            out.append(Case('C09 keyed %s %s %s' % (fn, it, ijt), impl, 'keyed/' + fn, meta=meta('keyed-' + key)))
     # the two frequency formulas of the generic model: k*Fs/N against the dense grid, the linspace text against utils.get_freqs
     if not isinstance(R['dense'], str):
         import nitime.utils as U
@@ -510,6 +677,8 @@ def cfg_class(sc, nslices):
         fam += '/%s-data' % sc['dvar']
     if sc.get('wform') not in (None, 'array'):
         fam += '/window-as-%s' % sc['wform']
+    if sc.get('labels'):
+        fam += '/pairs-%s' % sc['labels']
     return '%s-nfft/%s-overlap/%s/%s%s' % ('even' if sc['NFFT'] % 2 == 0 else 'odd',
                                          'default' if sc['nov'] is None else 'explicit',
                                          'full-band' if (sc['lb'] == 0 and sc['ub'] is None) else 'band-limited',
@@ -582,6 +751,28 @@ def judge(sc, R):
     w = differs(c['psd'], wantp)
     if w:
         fails.append(('psd/%s/ne-dense' % cls, 'cache_to_psd differs from the dense PSD: ' + w, 'psd'))
+    if sc.get('labels'):
+        # labels: every value sits under the key of ITS channel / pair (each channel has its own spectrum)
+        att = label_attribution(sc, R)
+        for key, fn in (('fft', 'cache_fft'), ('psd', 'cache_to_psd'), ('phase', 'cache_to_phase')):
+            if c['lab']['keys'][key] != chans:
+                fails.append(('labels/%s/%s/wrong-key-set' % (fn, cls), '%s: keys %s, requested channels %s' % (fn, c['lab']['keys'][key], chans), 'keyed-' + key))
+            elif att.get(key) is not None and att[key] != chans:
+                bad_ = [(k_, a_) for k_, a_ in zip(chans, att[key]) if k_ != a_]
+                fails.append(('labels/%s/%s/value-of-another-channel' % (fn, cls),
+                              '%s with ij=%s: the value under key %d is the one of channel %d' % (fn, ij, bad_[0][0], bad_[0][1]), 'keyed-' + key))
+        if not isinstance(s, str) and 'spectrum' in s:
+            w = differs(s['spectrum'], wantp)
+            if w:
+                fails.append(('sparse-spectrum/%s/ne-dense' % cls, 'SparseCoherenceAnalyzer.spectrum differs from the dense PSD of the channel it is keyed by: ' + w, 'psd'))
+            if s['phases'].shape != c['phase'].shape or not np.array_equal(np.nan_to_num(s['phases']), np.nan_to_num(c['phase'])):
+                fails.append(('sparse-phases/%s/ne-cache' % cls, 'SparseCoherenceAnalyzer.phases differ from cache_to_phase on the same input', 'phase'))
+            fr_ = f[li:ui]
+            with np.errstate(all='ignore'):
+                wd = np.angle(want) / (2 * np.pi * fr_)
+            okm = np.isfinite(wd) & (np.abs(want) > 1e-6) & (np.abs(np.abs(np.angle(want)) - np.pi) > 1e-6)
+            if s['delay'].shape == wd.shape and okm.any() and np.abs(s['delay'][okm] - wd[okm]).max() > 1e-6 * max(1.0, np.abs(wd[okm]).max()):
+                fails.append(('sparse-delay/%s/ne-dense' % cls, 'SparseCoherenceAnalyzer.delay differs from angle(dense coherency)/(2 pi f) for the pair it is indexed by', 'sparse-coherency'))
     # relative phase: single window against the dense angle
     if c['nslices'] == 1 and c['relphase'].shape == want.shape:
         dang = np.angle(np.array([fxy[min(i, j), max(i, j), li:ui] if i <= j else np.conj(fxy[j, i, li:ui]) for i, j in ij]).reshape(len(ij), -1))
@@ -604,7 +795,9 @@ def judge(sc, R):
     # seed rows against the dense result on the stacked channels
     sd = R['seed']
     ns = sc['nseed']
-    if isinstance(sd, str):
+    if sc.get('noseed'):
+        pass
+    elif isinstance(sd, str):
         fails.append(('seed/raises', 'SeedCoherenceAnalyzer raised ' + sd, 'seed'))
     else:
         nsd = max(ns, 1)
@@ -1248,7 +1441,10 @@ def oracle(rng, tier, seed, focus, cases=None):
         nraise += R.get('nraise', 0) + sum(1 for v in R.get('raised', {}).values() if v)
         for key, what, obs in R['bad']:
             fails.append(Failure(key, what, {'scenario': sc, 'key': key}, case=(by.get(('r2-%d' % si, obs)) or [None])[0]))
-    return fails, {'scenarios_judged': nj, 'round2_scenarios': n2, 'round2_refused_calls_seen': nraise, 'failed_checks': len({(id(f.replay['scenario']), f.key) for f in fails}),
+    labs = [sc for sc in _SC.get('list', []) if sc.get('labels')]
+    lab_stats = {'label_scenarios': len(labs), 'label_scenarios_whose_channel_set_iterates_unsorted': sum(1 for sc in labs if sc['setiter'] != sorted(sc['setiter'])),
+                 'label_channel_counts': sorted({len(sc['data']) for sc in labs})}
+    return fails, {'labels': lab_stats, 'scenarios_judged': nj, 'round2_scenarios': n2, 'round2_refused_calls_seen': nraise, 'failed_checks': len({(id(f.replay['scenario']), f.key) for f in fails}),
                    'distinct_failure_keys': len({f.key for f in fails}), 'focus': len(focus)}
 
 
